@@ -19,6 +19,8 @@ def run(ctx):
     from .. import schemespec
     for cfg, prog in ctx.programs().items():
         from .. import inbounds
+        nh = inbounds.rule_hidden_flag(ctx, cfg, prog)
+        ctx.floor('R-HIDDEN/flag identity uses in key derivation[%s]' % cfg, nh, 4)
         ni = inbounds.rule_inbounds(ctx, cfg, prog, only=['keygen', 'nondelegable_keygen', 'qualifykey', 'nondelegable_qualifykey', 'resamplekey', 'precompute'])
         ctx.floor('R-INBOUNDS cursor-selected accesses[%s]' % cfg, ni, 15)
         cursor.rule_cursor(ctx, cfg, prog)
